@@ -10,7 +10,9 @@ import (
 
 	dragonboat "github.com/lni/dragonboat/v4"
 	"verif/sim/core"
+	"verif/sim/crashfs"
 	"verif/sim/fsmsim"
+	"verif/sim/simnet"
 )
 
 // Exec executes one W3 schedule inside a synctest bubble.
@@ -36,6 +38,8 @@ func Exec(s core.Schedule) *core.Outcome {
 			fmt.Fprintf(os.Stderr, "EVT %s %s draws=%d\n", time.Now().Format("04:05.000"), e, core.RuntimeDraws())
 		}
 	}
+	w.u.Yield = core.Yield
+	crashfs.Yield, simnet.Yield = core.Yield, core.Yield
 	w.u.FaultMinShard = 10000 // metadata shards are not subjected to proposal faults
 	w.u.ReadBusyPermille = cfg.ReadBusyPermille
 	w.noReplication = cfg.NoReplication
